@@ -27,8 +27,7 @@ func (s *scope) pop() {
 // makevar generates and returns a new JS name for the given variable name, adds
 // that mapping to this scope.
 func (s *scope) makevar(varname string) string {
-	s.n++
-	var genName = varname + strconv.Itoa(s.n)
+	var genName = s.genname(varname)
 	s.stack[len(s.stack)-1][varname] = genName
 	return genName
 }
@@ -38,7 +37,14 @@ func (s *scope) makevar(varname string) string {
 // not see the variable it defines.)
 func (s *scope) genname(varname string) string {
 	s.n++
-	return varname + strconv.Itoa(s.n)
+	return jsname(varname, "", s.n)
+}
+
+// jsname builds the JS name of the n-th generated variable: the Soy name, a
+// "$" (legal in a JS identifier, impossible in a Soy name, so that x1 at n=1
+// and x at n=11 stay different), what it is used for, and n.
+func jsname(varname, use string, n int) string {
+	return varname + "$" + use + strconv.Itoa(n)
 }
 
 func (s *scope) bind(varname, genName string) {
@@ -57,28 +63,32 @@ func (s *scope) lookup(varname string) string {
 
 func (s *scope) pushForRange(loopVar string) (lVar, lLimit string) {
 	s.n++
-	n := strconv.Itoa(s.n)
+	var (
+		lv    = jsname(loopVar, "", s.n)
+		limit = jsname(loopVar, "Limit", s.n)
+	)
 	s.stack = append(s.stack, map[string]string{
-		loopVar:                loopVar + n,
-		loopLimitKey + loopVar: loopVar + "Limit" + n,
-		loopIndexKey + loopVar: loopVar + n,
+		loopVar:                lv,
+		loopLimitKey + loopVar: limit,
+		loopIndexKey + loopVar: lv,
 	})
-	return loopVar + n,
-		loopVar + "Limit" + n
+	return lv, limit
 }
 
 func (s *scope) pushForEach(loopVar string) (lVar, lList, lLen, lIndex string) {
 	s.n++
-	n := strconv.Itoa(s.n)
+	var (
+		lv    = jsname(loopVar, "", s.n)
+		list  = jsname(loopVar, "List", s.n)
+		limit = jsname(loopVar, "Limit", s.n)
+		index = jsname(loopVar, "Index", s.n)
+	)
 	s.stack = append(s.stack, map[string]string{
-		loopVar:                loopVar + n,
-		loopLimitKey + loopVar: loopVar + "Limit" + n,
-		loopIndexKey + loopVar: loopVar + "Index" + n,
+		loopVar:                lv,
+		loopLimitKey + loopVar: limit,
+		loopIndexKey + loopVar: index,
 	})
-	return loopVar + n,
-		loopVar + "List" + n,
-		loopVar + "Limit" + n,
-		loopVar + "Index" + n
+	return lv, list, limit, index
 }
 
 // looplimit returns the JS variable name for the limit of the (innermost)
